@@ -34,7 +34,7 @@ func (o goMapObject) toKey(name string) reflect.Value {
 	if err != nil {
 		panic(goValueError(err))
 	}
-	return reflectValue
+	return reflectValue.Convert(o.keyType) // the key type may be a defined type (type K int)
 }
 
 func (o goMapObject) toValue(value Value) reflect.Value {
@@ -61,7 +61,7 @@ func goMapGetOwnProperty(obj *object, name string) *property {
 		return nil
 	}
 
-	value := goObj.value.MapIndex(key)
+	value := goObj.value.MapIndex(key.Convert(goObj.keyType))
 	if value.IsValid() {
 		return &property{obj.runtime.toValue(value.Interface()), 0o111}
 	}
